@@ -448,10 +448,18 @@ def run(drv, prop, tier, cfg, t0):
         bin_cases = [c for c in bin_cases if c["family"] != "spelling" or "double" not in c.get("spelling", "")]
 
     def one_bin(case):
-        try:
-            return (case,) + run_binary(drv, binary, case)
-        except Exception as e:  # connection refused etc. -> reported as an observation problem
-            return case, {}, expected(case), f"{type(e).__name__}: {e}"
+        # a loaded machine may be slow: an observation that looks wrong is taken a second time
+        last = None
+        for attempt in range(2):
+            try:
+                obs, exp, err = run_binary(drv, binary, case)
+            except Exception as e:  # connection refused etc. -> reported as an observation problem
+                obs, exp, err = {}, expected(case), f"{type(e).__name__}: {e}"
+            last = (case, obs, exp, err)
+            if not err and not judge_binary(obs, exp):
+                break
+            time.sleep(0.5)
+        return last
 
     with ThreadPoolExecutor(max_workers=8) as ex:
         bres = list(ex.map(one_bin, bin_cases))
